@@ -40,6 +40,9 @@ const (
 // Options configure one job.
 type Options struct {
 	MapOrder bool // explore every iteration order of maps (default: insertion order)
+	// MapOrderPkgs restricts MapOrder to range statements in functions of packages with one of
+	// these path prefixes (empty = everywhere)
+	MapOrderPkgs []string
 	Sched    int  // SchedLow, SchedHigh, SchedExplore
 	Budget   int  // instruction budget per path
 	MaxConc  int  // maximum number of values enumerated by one concretisation
